@@ -24,7 +24,8 @@ def big_case(rng, nrows, long_lines, mode, nquads):
     for i in range(nrows):
         v = 'v%d' % i
         if long_lines and rng.random() < long_lines:
-            v = ('x%d-' % i) * rng.choice([1500, 2100, 3000, 700])
+            # 3 KiB ... 15 KiB, and now and then a value far above any plausible buffer or pipe size (about 100 KiB / 400 KiB)
+            v = ('x%d-' % i) * rng.choice([1500, 2100, 3000, 700, 1500, 2100, 3000, 700, 22000, 80000])
         rows.append([str(i), v, rng.choice(['a', 'b', 'c']), 'w%d' % (i % 7)])
     preds = ['p/name', 'p/kind', 'q/w', 'r/x']
     poms = [{'preds': [tm('const', EX + preds[0])], 'objs': [{'m': tm('ref', 'v'), 'lang': None, 'dt': None, 'joins': []}], 'graphs': []},
@@ -54,7 +55,7 @@ def file_lines(files):
 
 
 def run(ctx, res):
-    res.rule = ('command-line runs with number_of_processes in {1, 2, 4, 32} on outputs of 0 ... ~10^4 lines including lines above 8 KiB, output_file and output_dir, PARTIAL-AGGREGATIONS / MAXIMAL / NO; '
+    res.rule = ('command-line runs with number_of_processes in {1, 2, 4, 32} on outputs of 0 ... ~10^4 lines including lines above 8 KiB and a few of 100 - 400 KiB, output_file and output_dir, PARTIAL-AGGREGATIONS / MAXIMAL / NO; '
                 'every write(2) to an output file is logged by an LD_PRELOAD shim: it must be complete and end in a line feed, and for single-group single-process runs the sequence of payload sizes must '
                 'equal the prediction of Model/Writer.v from the line lengths; forced schedules (per-group delays reversing / interleaving completion order) must leave the multiset of lines unchanged; '
                 'the library result must not depend on number_of_processes; distinct = distinct (case, processes, schedule); non-trivial = at least two groups or a line above 8 KiB')
@@ -151,8 +152,8 @@ def run(ctx, res):
                 'sources': [{'key': 'S0', 'kind': 'csv', 'cols': ['id', 'v', 'w'], 'rows': rows}],
                 'doc': [{'id': EXN + 'tm/T', 'src': 'S0', 'nonasserted': False, 'subj': tmx('templ', EXN + 'r/{id}'), 'sjoins': [], 'classes': [], 'sgraphs': [], 'poms': poms}],
                 'execs': execs}
-        batch = family.Batch(ctx)
-        outs = [batch.run([case], want_spec=False, cfg_override={'procs': pr})[0]['impl'] for pr in (1, 3, 1)]
+        # every run in a fresh process of its own: what a run inherits from earlier runs of the same process is C16's subject
+        outs = [family.run_sequence(ctx, [dict(case, cfg=dict(case['cfg'], procs=pr))])[0] for pr in (1, 3, 1)]
         res.evaluations += 1
         res.count('stateful-udf')
         if not (family.same(outs[0], outs[1]) and family.same(outs[0], outs[2])):
